@@ -109,6 +109,11 @@ type Config struct {
 	Chunk    int
 	OnReady  func(r *Run) // called (in its own goroutine) after the handshake
 	NoClose  bool
+	// Strict marks a scenario in which the trace specification may assume a
+	// silent peer: the first N Sends must return without waiting.
+	Strict bool
+	// ManualStart: senders wait for Run.StartSenders.
+	ManualStart bool
 	RecvSlow func(ep string, id int) time.Duration
 }
 
@@ -127,6 +132,10 @@ type Run struct {
 	SendErr   [2]string
 	RecvErr   [2]string
 	Leaked    []string
+	startCh   chan struct{}
+	startOnce sync.Once
+	calls     [2]int // Send calls started
+	rets      [2]int // Send calls returned
 	HsErr     [2]string
 }
 
@@ -218,9 +227,27 @@ func Goroutines(fragment string) []string {
 	return out
 }
 
+// StartSenders releases the application senders (ManualStart).
+func (r *Run) StartSenders() { r.startOnce.Do(func() { close(r.startCh) }) }
+
+// Probe records, at a quiescent instant, how many Send calls of endpoint ep
+// have returned and whether one is still blocked.
+func (r *Run) Probe(ep string) {
+	i := epIdx[ep]
+	r.mu.Lock()
+	calls, rets := r.calls[i], r.rets[i]
+	r.mu.Unlock()
+	blocked := 0
+	if calls > rets {
+		blocked = 1
+	}
+	r.Rec.Emit("probe", "ep", ep, "returned", rets, "blocked", blocked)
+}
+
 // Execute runs the configured scenario.  It must be called from inside a
 // synctest bubble.  The returned Run holds the recorded trace.
 func Execute(cfg Config) *Run {
-	r := &Run{Cfg: cfg, Rec: trace.New(), ids: map[any]string{}}
+	r := &Run{Cfg: cfg, Rec: trace.New(), ids: map[any]string{},
+		startCh: make(chan struct{})}
 	return r.execute()
 }
